@@ -194,6 +194,17 @@ theorem cellAverage_const_aux {K : Type} [Field K] [CharZero K] (vals : Nat → 
     exact_mod_cast this
   field_simp
 
+/-- the index map of the division grid is the action on reduced k-vectors, read in grid units -/
+theorem gridImage_spec_aux (g : PSym Rat) (B : Mat Rat) (div : Fin 3 → Nat) (hd : ∀ i, div i ≠ 0) (n : Vec Rat)
+    (j : Fin 3) :
+    g.transformReduced (fun i => n i / (div i : Rat)) B j * (div j : Rat)
+      = gridImage (signedRedMat g B) div n j := by
+  have h0 : (div 0 : Rat) ≠ 0 := by exact_mod_cast hd 0
+  have h1 : (div 1 : Rat) ≠ 0 := by exact_mod_cast hd 1
+  have h2 : (div 2 : Rat) ≠ 0 := by exact_mod_cast hd 2
+  unfold PSym.transformReduced gridImage signedRedMat vecMat sum3
+  field_simp
+
 theorem foldl_pts_eq {K : Type} [Field K] {α : Type} (g : α → K) (l : List α) :
     l.foldl (fun acc p => acc + g p) 0 = (l.map g).sum := by
   rw [foldl_add_eq, zero_add]
